@@ -20,7 +20,7 @@ def cl (pc : Bool) : Tok → Nat
   | .add | .sub => 9
   | .mul | .div | .mod => 10
   | .pow => 12
-  | .incr | .decr => 13
+  | .incr | .decr => 14   -- `p.postIncr()` takes them after an lvalue, `p.primary()` after `$x`
   | .lbracket => 15
   | _ => 0
 
@@ -35,6 +35,11 @@ def startOk (t : Tok) : Bool := concatStart t && !signStart t
 /-- side condition of a concatenation: the right operand starts with a token on which `concat()` continues -/
 def catOk (op : BOp) (r : Expr) : Bool := op != .concat || startOk (hd (render r))
 
+/-- operands whose parse by `p.primary()` does not look at the token that follows them (other than `[` after a name) -/
+def closed : Expr → Bool
+  | .num _ | .var _ | .str _ | .group _ | .index _ _ => true
+  | _ => false
+
 /-- canonical trees: what the level-`k` parser produces from `render e` (written parentheses are `group` nodes) -/
 def canon (pc : Bool) : Nat → Expr → Bool
   | k, .num _ => decide (k ≤ 15)
@@ -44,8 +49,15 @@ def canon (pc : Bool) : Nat → Expr → Bool
   | k, .unary _ e => decide (k ≤ 12) && canon pc 11 e   -- `pow()` (levels 11 and 12) reads a unary operator
   | k, .binary op l r => op.stageA pc && decide (k ≤ op.prec) && canon pc op.lhs l && canon pc op.rhs r && catOk op r
   | k, .cond c t f => decide (k ≤ 2) && canon pc 3 c && canon false 1 t && canon pc 1 f
-  | k, .assign _ (.var _) r => decide (k ≤ 1) && canon pc 1 r
+  | k, .assign _ l r => decide (k ≤ 1) && l.isLValue && canon false 14 l && canon pc 1 r
   | k, .inArr e _ => decide (k ≤ 5) && canon pc 5 e
+  | k, .index _ i => decide (k ≤ 15) && canon false 1 i
+  | k, .field e => decide (k ≤ 14) && canon false 14 e
+  | k, .incr true _ l => decide (k ≤ 13) && l.isLValue && canon false 14 l
+  -- operand of a post-increment: `x`, `a[i]`, or `$e` with `e` closed (`$$x++` is `$($x++)`)
+  | k, .incr false _ (.var _) => decide (k ≤ 13)
+  | k, .incr false _ (.index _ i) => decide (k ≤ 13) && canon false 1 i
+  | k, .incr false _ (.field e) => decide (k ≤ 13) && closed e && canon false 14 e
   | _, _ => false
 
 /-- nesting depth of backward edges (an upper bound: every node counts) -/
